@@ -302,6 +302,10 @@ def real_cases(tier):
                 yield {"real": True, "sim": sim, "req": req, "kind": kind}
 
 
+# an in-process simulator can fail with any exception type, also with one mosaik itself uses for lost connections
+LOCAL_KINDS = ["raise", "raise_conn", "raise_eof", "raise_timeout", "raise_key"]
+
+
 def shards(tier, seed):
     return schedprops.std_shards(PROP, tier, seed)
 
@@ -312,7 +316,7 @@ def shard(prop, tier, seed, shard, nshards):
     for name, scn in base_scenarios():
         counts = request_counts(scn)
         for sm in scn["sims"]:
-            kinds = ["raise"] if sm.get("transport") != "mem" else ["raise", "close", "reset"]
+            kinds = LOCAL_KINDS if sm.get("transport") != "mem" else ["raise", "close", "reset"]
             for req in range(counts.get(sm["sid"], 0)):
                 for kind in kinds:
                     for sched in (SCHEDULES if tier == "thorough" else SCHEDULES[:2]):
@@ -339,7 +343,7 @@ def shard(prop, tier, seed, shard, nshards):
     def hcase(draw):
         c = draw(gen.cases(min_sims=2, debug_ok=False))
         sm = draw(st.sampled_from(c["scenario"]["sims"]))
-        kind = draw(st.sampled_from(["raise"] if sm.get("transport") != "mem" else ["raise", "close", "reset"]))
+        kind = draw(st.sampled_from(LOCAL_KINDS if sm.get("transport") != "mem" else ["raise", "close", "reset", "raise_conn"]))
         c["faults"] = [{"sim": sm["sid"], "req": draw(st.integers(0, 8)), "kind": kind}]
         c["schedule"]["shutdown"] = draw(st.sampled_from(["release", "hold"]))
         return c
